@@ -187,7 +187,10 @@ def entries(prog, crates):
 
 
 def derived(f):
-    return bool((f.get("impl") or {}).get("automatically_derived"))
+    """derived impls that only copy, compare, hash or print what is there (a derived Default builds a value of its own and is not exempt)"""
+    imp = f.get("impl") or {}
+    return bool(imp.get("automatically_derived")) and imp.get("trait") in ("core::clone::Clone", "core::cmp::PartialEq", "core::cmp::Eq", "core::hash::Hash", "core::fmt::Debug",
+                                                                              "core::cmp::PartialOrd", "core::cmp::Ord", "core::marker::StructuralPartialEq", "core::marker::Copy")
 
 
 def is_fn(f, self_adt=None, item=None, trait=None, name=None):
